@@ -201,9 +201,77 @@ def r14_3(ctx, counts) -> RuleResult:
     return res
 
 
+NAMED_KINDS = ('ElementNode', 'ProcessingInstructionNode')
+
+
+def r14_4(ctx, counts) -> RuleResult:
+    """the [n] of a path step counts the preceding siblings the step itself would select"""
+    from ..engine.cfg import CFG
+    from ..engine.dataflow import branch_facts
+    model: Model = ctx.model
+    res = RuleResult(
+        'R14.4', 'PATH-POSITION-SAME-STEP',
+        'fn:path writes each step as <test>[n] where n is one plus the number of preceding '
+        'siblings that the same test selects: elements with the same name, processing '
+        'instructions with the same target, text nodes, comments. In get_child_position (the '
+        'counter behind every path property) each increment of the position is therefore '
+        'dominated by (a) a test of the KIND of the sibling — an isinstance whose subject is the '
+        'loop variable — and (b), when the counted child can be of a named kind (element, '
+        'processing instruction: the kinds whose path step carries a name), the equality of the '
+        'two names. Without (a) <?pi?><pi/> gives Q{}pi[2]; without (b) the second of <?a?><?b?> '
+        'is processing-instruction(b)[2]. In both cases the path selects nothing or another node.')
+    f = None
+    for c in model.all_classes():
+        if c.name == 'XPathNode' and 'get_child_position' in c.methods:
+            f = c.methods['get_child_position']
+    if f is None:
+        raise AnalysisError('XPathNode.get_child_position vanished')
+    params = f.params()
+    child = params[1]
+    loops = [x for x in walk_local(f.node) if isinstance(x, ast.For) and isinstance(x.target, ast.Name)]
+    if len(loops) != 1:
+        raise AnalysisError(f'{f.key}: {len(loops)} loops (one loop over the siblings expected)')
+    sib = loops[0].target.id
+    cfg = CFG(f.node)
+    facts = branch_facts(cfg)
+    n = 0
+    for nd in cfg.nodes:
+        a = nd.ast
+        if nd.kind != 'stmt' or not isinstance(a, ast.AugAssign) or not isinstance(a.op, ast.Add):
+            continue
+        n += 1
+        fs = facts[nd.id]
+        kind = any(fa.startswith(f'+isinstance({sib}, ') for fa in fs)
+        named = f'+{sib}.name == {child}.name' in fs or f'+{child}.name == {sib}.name' in fs
+        # kinds of `child` still possible at this increment
+        excluded = {k for k in NAMED_KINDS if any(
+            fa.startswith(f'-isinstance({child}, ') and k in fa for fa in fs)}
+        selected = {k for k in NAMED_KINDS if any(
+            fa.startswith(f'+isinstance({child}, ') and k in fa for fa in fs)}
+        may_be_named = bool(selected) or len(excluded) < len(NAMED_KINDS)
+        res.instances.append(f'{f.key}: `{stmt_text(a)}` sibling kind tested={kind} names equal='
+                             f'{named} child may be element/PI={may_be_named}')
+        if not kind:
+            res.fail(finding('R14.4', f, a, 'sibling counted whatever its kind',
+                             f'`{stmt_text(a)}` counts a sibling without testing its kind (facts: '
+                             f'{sorted(fs)[:3]}): a processing instruction whose target equals the '
+                             f'element name is counted, <a><?pi x?><pi/></a> gives Q{{}}pi[2]'))
+        elif may_be_named and not named:
+            res.fail(finding('R14.4', f, a, 'named kind counted whatever its name',
+                             f'`{stmt_text(a)}` can count siblings of a named kind (element or '
+                             f'processing instruction) without comparing the names: the second '
+                             f'of <?a?><?b?> gets processing-instruction(b)[2]'))
+        else:
+            res.ok()
+    counts['position_increments'] = n
+    if n < 2:
+        raise AnalysisError(f'{f.key}: only {n} position increments located')
+    return res
+
+
 def run(ctx) -> dict:
     counts: dict[str, int] = {}
-    results = [r14_1(ctx, counts), r14_2(ctx, counts), r14_3(ctx, counts)]
+    results = [r14_1(ctx, counts), r14_2(ctx, counts), r14_3(ctx, counts), r14_4(ctx, counts)]
     return {
         'results': results, 'counts': counts,
         'explanation':
